@@ -12,7 +12,7 @@ CHECK = dict(
                 lib=['list.c', 'messageq.c', 'ringbuf.c', 'fibre.c', 'util.c', _H],
                 libflags=['-DC15_SHIM', '-finstrument-functions', '-fstack-protector-all'],
                 cflags=['-Wno-format-truncation', '-Wno-unused-but-set-variable'], workers=32,
-                deadline=dict(quick=150, thorough=1500))],
+                deadline=dict(quick=300, thorough=1800))],
     rule='All sizes come from the library (line buffer = sizeof scratch.buf, a line holds one character less, table slots = '
          'lengthof(cmd_table)); registered: a, ab (yields, then uses the scratch area), b, abababab, ababababa, Ab, !~, ~! next to '
          'the built-ins. '
